@@ -69,7 +69,7 @@ NEXT_MODEL = dict(
          "contract the record lies at or after the position, the position becomes one past it, and never moves back")
 
 
-@contract(MOD + ":FetchResult.getone", ["C03", "C04", "C05"])
+@contract(MOD + ":FetchResult.getone", ["C03", "C04", "C05", "C08"])
 def _(c):
     c.self_("FetchResult")
     c.returns(Opt(Ref("ConsumerRecordObj")))
@@ -95,7 +95,7 @@ def _(c):
     c.ensures("other-partitions-untouched", "forall(TPSTATE, lambda s: implies(s != %s, unchanged(s)))" % STATE)
 
 
-@contract(MOD + ":FetchResult.getall", ["C03", "C04", "C05"])
+@contract(MOD + ":FetchResult.getall", ["C03", "C04", "C05", "C08"])
 def _(c):
     """getmany(): everything the buffer holds (or max_records of it) in one go"""
     c.self_("FetchResult")
